@@ -16,12 +16,12 @@ import random
 
 import z3
 
-from pyvc import source
+from pyvc import source, values
 from pyvc.core import Ledger, check_valid
 from pyvc.harness import get_target, verify
 from pyvc.interp import Config, LoopSpec, PyRaise
 from pyvc.pool import collect, run_jobs
-from pyvc.values import Label, Obj, SArr, SBool, SDict, SInt, SList, SSeq, SU, U, seq_of, to_z3, wrap
+from pyvc.values import Label, Obj, SArr, SBool, SDict, SInt, SList, SSeq, SU, U, seq_of, to_z3, ustr, wrap
 
 LEVEL = "proof"
 T_SHELL = "iodata.convert._convert_convention_shell"
@@ -132,6 +132,8 @@ class _Theory:
         self.off = z3.Function("off", I, I, I)
         self.rev = z3.Bool("reverse")
         self.BAD = z3.Function("tables_bad", I, U, B)
+        # number of functions of a shell type (docs/basis.rst): (l+1)(l+2)/2 Cartesian, 2l+1 pure
+        self.NF = z3.Function("nfunctions", I, U, I)
 
     def size(self, s, c):
         return self.n1(self.angm(s, c), self.kind(s, c))
@@ -154,7 +156,13 @@ class _Theory:
             self.off(0, 0) == 0,
             z3.ForAll([s, c], z3.Implies(self.valid(s, c), self.off(s, c + 1) == self.off(s, c) + self.size(s, c))),
             z3.ForAll([s], z3.Implies(z3.And(0 <= s, s < self.ns), self.off(s + 1, 0) == self.off(s, self.ncon(s)))),
+            # precondition (type invariant of Shell, see C12): every contraction is Cartesian or pure with l >= 0
+            z3.ForAll([s, c], z3.Implies(self.valid(s, c), z3.And(self.angm(s, c) >= 0, z3.Or(self.kind(s, c) == ustr("c"), self.kind(s, c) == ustr("p"))))),
         ]
+
+    def nf_def(self, l, k):
+        """Ground instance of the definition of NF (added for the contraction at hand: keeps non-linear terms out of quantifiers)."""
+        return self.NF(l, k) == z3.If(k == ustr("c"), values.IMUL(l + 1, l + 2) / 2, 2 * l + 1)
 
     def key_bad(self, l, k):
         """Opaque predicate: the two tables at key (l, k) omit, duplicate or mismatch labels.  Its meaning is
@@ -172,6 +180,7 @@ class _Theory:
         return z3.And(
             z3.ForAll([s1, c1], z3.Implies(cond, z3.And(self.has1(l1, k1), self.has2(l1, k1), z3.Not(self.BAD(l1, k1))))),
             z3.ForAll([s1, c1], z3.Implies(cond, z3.And(o >= 0, o + self.size(s1, c1) <= nP))),
+            z3.ForAll([s1, c1], z3.Implies(cond, self.size(s1, c1) == self.NF(l1, k1))),
             z3.ForAll([s1, c1, j], z3.Implies(inblock, P(o + j) == o + self.SP(l1, k1, j))),
             z3.ForAll([s1, c1, j], z3.Implies(inblock, S(o + j) == self.SS(l1, k1, j))),
         )
@@ -179,6 +188,8 @@ class _Theory:
 
 def job_conventions():
     th = _Theory()
+    # (l+1)*(l+2) is the only product of two symbolic integers in convert_conventions: kept as an uninterpreted term
+    values.ABSTRACT_INT_PRODUCTS[0] = True
 
     def conv_dict(has, n, nm, b, tag):
         def has_(interp, key):
@@ -245,6 +256,8 @@ def job_conventions():
     # inner loop: `for angmom, kind in zip(shell.angmoms, shell.kinds)`, c = contractions of this shell done
     def inner_havoc(interp, frame, c):
         fresh_lists(interp, frame, "inner")
+        sidx = frame.locals["shell"].index
+        interp.ctx.assume(th.nf_def(th.angm(sidx, to_z3(c)), th.kind(sidx, to_z3(c))))
 
     def inner_inv(interp, frame, c):
         P, S, nP, nS = state(frame)
@@ -269,7 +282,7 @@ def job_conventions():
         s, c = z3.Ints("ws wc")
         l, k = th.angm(s, c), th.kind(s, c)
         some_missing = z3.Exists([s, c], z3.And(th.valid(s, c), z3.Or(z3.Not(th.has1(l, k)), z3.Not(th.has2(l, k)))))
-        some_bad = z3.Exists([s, c], z3.And(th.valid(s, c), th.has1(l, k), th.has2(l, k), th.key_bad(l, k)))
+        some_bad = z3.Exists([s, c], z3.And(th.valid(s, c), th.has1(l, k), th.has2(l, k), z3.Or(th.key_bad(l, k), th.n1(l, k) != th.NF(l, k))))
         if out.kind == "raise":
             cls = out.exc_class
             ctx.prove("raises.only-KeyError-or-ValueError", cls in (KeyError, ValueError), kind="raises")
@@ -287,9 +300,63 @@ def job_conventions():
         P = lambda i: pa.get((i,))  # noqa: E731
         S = lambda i: sa.get((i,))  # noqa: E731
         ctx.prove("post.length-is-total-number-of-functions", z3.And(pa.n0() == th.off(th.ns, 0), sa.n0() == pa.n0()))
-        ctx.prove("post.direct-sum-of-shell-conversions-in-shell-order", th.blocks_done(P, S, pa.n0(), th.ns, z3.IntVal(0)))
+        # "omit ... labels are rejected, never silently mis-mapped": a block must have as many entries as the shell type has
+        # functions (docs/basis.rst: (l+1)(l+2)/2 Cartesian, 2l+1 pure); otherwise every later shell is shifted
+        ctx.prove("post.every-block-has-as-many-entries-as-its-shell-type-has-functions", z3.Implies(th.valid(s, c), th.n1(l, k) == th.NF(l, k)))  # s, c free: for all
 
-    return verify(T_CONV, setup, post, config=cfg, quant_feas=True)
+    try:
+        return verify(T_CONV, setup, post, config=cfg, quant_feas=True)
+    finally:
+        values.ABSTRACT_INT_PRODUCTS[0] = False
+
+
+def job_block_length():
+    """One shell with one contraction of arbitrary type and arbitrary tables, all hypotheses quantifier-free: a return
+    implies that the block has as many entries as the shell type has functions.  (The same fact for every position of
+    every basis is the invariant conjunct of job_conventions; this ground version exists because a failing quantified
+    obligation comes back `unknown`, while this one comes back with a model.)"""
+    I = z3.IntSort()
+    l, n1, n2 = z3.Ints("bl.l bl.len1 bl.len2")
+    k = z3.Const("bl.kind", U)
+    bad = z3.Bool("bl.tables_bad")
+    nm = [z3.Function(f"bl.nm{i}", I, I) for i in (1, 2)]
+    bs = [z3.Function(f"bl.b{i}", I, U) for i in (1, 2)]
+    P, S = z3.Function("bl.P", I, I), z3.Function("bl.S", I, I)
+
+    def conv(n, nmf, bf, tag):
+        return SDict(lambda interp, key: wrap(z3.BoolVal(True)), lambda interp, key: SList(SSeq(n, lambda i: Label(nmf(i), bf(i)), list, tag=tag)), tag)
+
+    def callee(interp, args, kwargs):
+        ctx = interp.ctx
+        c1, c2 = seq_of(args[0]), seq_of(args[1])
+        if ctx.branch(z3.Or(bad, to_z3(c1.n) != to_z3(c2.n))):
+            raise PyRaise(ValueError("conventions omit, duplicate or mismatch labels"))
+        n = to_z3(c1.n)
+        return (SList(SSeq(n, lambda j: wrap(P(j)), list)), SList(SSeq(n, lambda j: wrap(S(j)), list)))
+
+    cfg = Config()
+    cfg.contracts[T_SHELL] = callee
+    # the contents of `permutation` / `signs` play no part in this obligation: extending them by a list of symbolic length is skipped
+    cfg.method_models[(list, "extend")] = lambda interp, self_obj, args, kwargs: None
+
+    def setup(ctx, interp):
+        ctx.assume(z3.And(l >= 0, n1 >= 0, n2 >= 0, z3.Or(k == ustr("c"), k == ustr("p"))))
+        sh = Obj(get_target("iodata.basis:Shell"), tag="shell")
+        sh.fields["angmoms"] = [SInt(l)]
+        sh.fields["kinds"] = [SU(k)]
+        mb = Obj(get_target("iodata.basis:MolecularBasis"), tag="molbasis")
+        mb.fields["shells"] = [sh]
+        mb.fields["conventions"] = conv(n1, nm[0], bs[0], "conventions")
+        return get_target("iodata.convert:convert_conventions"), [mb, conv(n2, nm[1], bs[1], "new_conventions"), False], {}, {}
+
+    def post(out, env):
+        if out.kind == "raise":
+            out.ctx.prove("block.raises-only-ValueError", out.exc_class is ValueError, kind="raises")
+            return
+        nfn = z3.If(k == ustr("c"), ((l + 1) * (l + 2)) / 2, 2 * l + 1)
+        out.ctx.prove("block.a-list-with-another-length-than-the-function-count-of-its-shell-type-is-rejected", n1 == nfn, witness=lambda m: {"l": m.eval(l, True).as_long(), "kind": "c" if z3.is_true(m.eval(k == ustr("c"), True)) else "p", "len": m.eval(n1, True).as_long()})
+
+    return verify(T_CONV, setup, post, config=cfg)
 
 
 # ------------------------------------------------------------------------------------------------
@@ -522,6 +589,8 @@ def spec_conventions(shell_types, conv1, conv2, reverse):
             r = spec_shell(conv1[key], conv2[key], reverse)
             if r == ("raise",):
                 return ("raise", "ValueError")
+            if len(r[0]) != ((key[0] + 1) * (key[0] + 2) // 2 if key[1] == "c" else 2 * key[0] + 1):
+                return ("raise", "ValueError")  # a list that omits (or adds) functions of the shell type would shift every later shell
             off = len(perm)
             perm += [p + off for p in r[0]]
             signs += r[1]
@@ -544,11 +613,20 @@ def concrete_search_conventions(seed=0, n_random=150):
         if rng.random() < 0.5:
             # random signed permutation of table a
             tb = {k: [("-" if rng.random() < 0.3 else "") + x.lstrip("-") for x in rng.sample(v, len(v))] for k, v in ta.items()}
+        if rng.random() < 0.15:
+            # the same label dropped from (or added to) one shell type of both dictionaries: consistent with each other, not with the shell type
+            key = rng.choice(sorted(set(ta) & set(tb)))
+            victim = rng.choice(ta[key]).lstrip("-")
+            if rng.random() < 0.7:
+                ta = {**ta, key: [x for x in ta[key] if x.lstrip("-") != victim]}
+                tb = {**tb, key: [x for x in tb[key] if x.lstrip("-") != victim]}
+            else:
+                ta, tb = {**ta, key: [*ta[key], "extra"]}, {**tb, key: ["extra", *tb[key]]}
         keys = sorted(set(ta) & set(tb)) if rng.random() < 0.9 else sorted(set(ta))
         keys = [k for k in keys if k[0] <= 5]
         if not keys:
             continue
-        shell_types = [[rng.choice(keys) for _ in range(rng.randint(1, 4))] for _ in range(rng.randint(1, 4))]
+        shell_types = [[rng.choice(keys) for _ in range(rng.randint(1, 4))] for _ in range(rng.randint(1, 4) if ncases else 0)]  # the first case is the empty basis
         shells = [Shell(i, [k[0] for k in cs], [k[1] for k in cs], np.ones(2), np.ones((2, len(cs)))) for i, cs in enumerate(shell_types)]
         basis = MolecularBasis(shells, ta, "L2")
         for rev in (False, True):
@@ -557,6 +635,8 @@ def concrete_search_conventions(seed=0, n_random=150):
             try:
                 p, s = fn(basis, tb, rev)
                 got = ([int(x) for x in p], [int(x) for x in s])
+                if p.dtype.kind != "i" or s.dtype.kind != "i":
+                    got = ("not usable as `vector[permutation] * signs`: dtypes", str(p.dtype), str(s.dtype))
             except (KeyError, ValueError) as exc:
                 got = ("raise", type(exc).__name__)
             if want != got:
@@ -632,6 +712,8 @@ shells = [Shell(i, [k[0] for k in cs], [k[1] for k in cs], np.ones(2), np.ones((
 try:
     p, s = convert_conventions(MolecularBasis(shells, conv1, "L2"), conv2, reverse)
     observed = str(([int(x) for x in p], [int(x) for x in s]))
+    if p.dtype.kind != "i" or s.dtype.kind != "i":
+        observed = str(("not usable as `vector[permutation] * signs`: dtypes", str(p.dtype), str(s.dtype)))
 except (KeyError, ValueError) as exc:
     observed = str(("raise", type(exc).__name__))
 print("expected", expected); print("observed", observed)
@@ -651,7 +733,7 @@ def run(chk):
         "callee _convert_convention_shell is a function of its arguments (uninterpreted SP/SS per key)",
         "pigeonhole: an injective map of range(n) into range(n) is a bijection (mathematical fact, not re-proved)",
     ]
-    jobs = [("checks.c10", "job_shell", {}), ("checks.c10", "job_conventions", {}), ("checks.c10", "job_lemmas", {}), ("checks.c10", "job_ground", {})]
+    jobs = [("checks.c10", "job_shell", {}), ("checks.c10", "job_conventions", {}), ("checks.c10", "job_block_length", {}), ("checks.c10", "job_lemmas", {}), ("checks.c10", "job_ground", {})]
     results = collect(chk, run_jobs(jobs))
     for r in results:
         if "tables" in r:
